@@ -392,6 +392,32 @@ def percentage_as_number(percent_str):
     """
     return float(percent_str.strip()[:-1]) * 0.01
 
+def safe_norm(x):
+    """
+    Absolute value of a number, or Frobenius norm of an array, computed without
+    squaring entries whose square leaves the range of floats (np.linalg.norm
+    overflows beyond about 1e154 and returns 0 below about 1e-162).
+
+    >>> safe_norm(-3)
+    3
+    >>> float(safe_norm(np.array([3, 4])))
+    5.0
+    >>> safe_norm(1e200)
+    1e+200
+    >>> safe_norm(-2e-200)
+    2e-200
+    >>> round(float(safe_norm(np.array([3e200, 4e200]))) / 1e200, 6)
+    5.0
+    >>> round(float(safe_norm(np.array([3e-200, 4e-200]))) / 1e-200, 6)
+    5.0
+    """
+    if isinstance(x, Number):
+        return abs(x)
+    scale = np.max(np.abs(x)) if np.size(x) else 0
+    if 1e-100 < scale < 1e100 or scale == 0 or not np.isfinite(scale):
+        return np.linalg.norm(x)
+    return scale * np.linalg.norm(np.asarray(x) / scale)
+
 def within_tolerance(x, y, tolerance):
     """
     Check that |x-y| <= tolerance with appropriate norm.
@@ -427,6 +453,12 @@ def within_tolerance(x, y, tolerance):
     >>> within_tolerance(A, B, 0.25)
     True
 
+    Works for very large and very small numbers:
+    >>> within_tolerance(1e200, 1.001e200, '1%')
+    True
+    >>> within_tolerance(1e-200, 2e-200, '1%')
+    False
+
     Also works for infinities (ignores tolerance in this case)
     >>> inf = float('inf')
     >>> within_tolerance(inf, inf, 0)
@@ -452,11 +484,11 @@ def within_tolerance(x, y, tolerance):
     # When used within graders, tolerance has already been
     # validated as a Number or PercentageString
     if isinstance(tolerance, str):
-        tolerance = np.linalg.norm(x) * percentage_as_number(tolerance)
+        tolerance = safe_norm(x) * percentage_as_number(tolerance)
 
     difference = x - y
 
-    return np.linalg.norm(difference) <= tolerance
+    return safe_norm(difference) <= tolerance
 
 def is_nearly_zero(x, tolerance, reference=None):
     """
@@ -502,6 +534,6 @@ def is_nearly_zero(x, tolerance, reference=None):
         if reference is None:
             raise ValueError('When tolerance is a percentage, reference must '
                 'not be None.')
-        tolerance = np.linalg.norm(reference) * percentage_as_number(tolerance)
+        tolerance = safe_norm(reference) * percentage_as_number(tolerance)
 
-    return np.linalg.norm(x) <= tolerance
+    return safe_norm(x) <= tolerance
